@@ -100,3 +100,67 @@ func VerifC20Field(tmpl string, lo, hi int) {
 	verif.Assert("C20:grb-loader-returns-a-result-or-an-error", (kb != nil) != (err != nil))
 	verif.Event("field", k, err != nil)
 }
+
+// ---------------------------------------------------------------- structure-aware splicing: a node that names itself as its child
+
+// c20SpliceReader replaces the k-th 36-byte string (an AST id) by the id of the node being read (the last id that was
+// read twice in a row: the catalog key and the node's own NodeMeta.AstID), producing a self-referencing node.
+type c20SpliceReader struct {
+	data     []byte
+	pos      int
+	nID      int
+	k        int
+	last     string
+	own      string
+	hit      bool
+	pendingN int
+}
+
+func (r *c20SpliceReader) Read(p []byte) (int, error) {
+	if len(p) == 0 {
+		return 0, nil
+	}
+	if r.pos >= len(r.data) {
+		return 0, io.EOF
+	}
+	n := len(p)
+	if r.pos+n > len(r.data) {
+		n = len(r.data) - r.pos
+	}
+	copy(p, r.data[r.pos:r.pos+n])
+	r.pos += n
+	if n == 36 && len(p) == 36 {
+		s := string(p)
+		if s == r.last {
+			r.own = s
+		}
+		r.last = s
+		if r.nID == r.k && r.own != "" && s != r.own {
+			copy(p, r.own)
+			r.hit = true
+		}
+		r.nID++
+	}
+	return n, nil
+}
+
+func VerifC20Splice(tmpl string) {
+	data := c20Stream(tmpl)
+	// count the id-sized strings of a healthy load
+	r0 := &c20SpliceReader{data: data, k: -1}
+	lib0 := ast.NewKnowledgeLibrary()
+	_, _ = lib0.LoadKnowledgeBaseFromReader(r0, true)
+	total := r0.nID
+	k := verif.Choice("id-string", total)
+	r := &c20SpliceReader{data: data, k: k}
+	verif.LimitIsViolation("C20:grb-loader-terminates-on-a-self-referencing-node")
+	lib := ast.NewKnowledgeLibrary()
+	kb, err, pan := loadKB(r, true, lib)
+	verif.Reach("c20:splice-load-returned")
+	if r.hit {
+		verif.Reach("c20:id-spliced")
+	}
+	verif.Assert("C20:grb-loader-no-panic-escapes-on-spliced-ids", !pan)
+	verif.Assert("C20:grb-loader-returns-a-result-or-an-error-on-spliced-ids", (kb != nil) != (err != nil))
+	verif.Event("splice", k, r.hit, err != nil)
+}
